@@ -136,6 +136,186 @@ theorem balanced_iff (src : List Kind) :
     rw [h1, heq]
     cases hf : firstUnmatchedCloseFrom src 0 0 <;> simp_all
 
+/-! ### Positional characterisations of `firstUnmatchedClose` and `innermostUnclosed` -/
+
+theorem fuc_shift (src : List Kind) : ∀ i d,
+    firstUnmatchedCloseFrom src i d = (firstUnmatchedCloseFrom src 0 d).map (· + i) := by
+  induction src with
+  | nil => intro i d; rfl
+  | cons k ks ih =>
+    intro i d
+    cases k <;> simp only [firstUnmatchedCloseFrom, Nat.zero_add]
+    case close =>
+      cases d with
+      | zero => simp
+      | succ d' =>
+        simp only
+        rw [ih (i + 1), ih 1]
+        cases firstUnmatchedCloseFrom ks 0 d' <;> simp; omega
+    all_goals
+      rw [ih (i + 1), ih 1]
+      cases firstUnmatchedCloseFrom ks 0 _ <;> simp; omega
+
+theorem fuc_iff (src : List Kind) : ∀ d n,
+    firstUnmatchedCloseFrom src 0 d = some n ↔
+      src[n]? = some Kind.close ∧ depthScan (src.take n) d = some 0 := by
+  induction src with
+  | nil => intro d n; simp [firstUnmatchedCloseFrom]
+  | cons k ks ih =>
+    intro d n
+    cases k <;> simp only [firstUnmatchedCloseFrom, Nat.zero_add]
+    case close =>
+      cases d with
+      | zero => cases n <;> simp [depthScan]
+      | succ d' =>
+        simp only
+        rw [fuc_shift ks 1]
+        cases n with
+        | zero => simp [depthScan]
+        | succ n => simp [ih, depthScan]
+    all_goals
+      rw [fuc_shift ks 1]
+      cases n with
+      | zero => simp
+      | succ n => simp [ih, depthScan]
+
+/-- `firstUnmatchedClose src = some i` iff character `i` is a `]` and the text before it scans from
+depth 0 to depth 0 without going negative. -/
+theorem firstUnmatchedClose_iff (src : List Kind) (i : Nat) :
+    firstUnmatchedClose src = some i ↔
+      src[i]? = some Kind.close ∧ depthScan (src.take i) 0 = some 0 :=
+  fuc_iff src 0 i
+
+theorem openStack_append (a b : List Kind) : ∀ i st,
+    openStack (a ++ b) i st = (openStack a i st).bind (openStack b (i + a.length)) := by
+  induction a with
+  | nil => intro i st; rfl
+  | cons k ks ih =>
+    intro i st
+    have e : i + (ks.length + 1) = i + 1 + ks.length := by omega
+    cases k <;> simp only [List.cons_append, openStack, List.length_cons, ih, e]
+    cases st <;> simp
+
+/-- Every position `p` left on the final stack at depth-index `m` (0 = innermost) is a `[`, and the
+text after it scans from depth 0 to depth `m`. (Stated for `l.reverse` to do induction from the end.) -/
+theorem openStack_final (l : List Kind) : ∀ st, openStack l.reverse 0 [] = some st →
+    ∀ (m p : Nat), st[m]? = some p →
+      l.reverse[p]? = some Kind.open ∧ depthScan (l.reverse.drop (p + 1)) 0 = some m := by
+  induction l with
+  | nil =>
+    intro st h m p hp
+    simp only [List.reverse_nil, openStack, Option.some.injEq] at h
+    subst h
+    simp at hp
+  | cons k l ih =>
+    intro st h m p hp
+    rw [List.reverse_cons, openStack_append] at h
+    rw [List.reverse_cons]
+    cases hA : openStack l.reverse 0 [] with
+    | none => rw [hA] at h; simp at h
+    | some sta =>
+      rw [hA] at h
+      have ih' := ih sta hA
+      have hlt : ∀ (m p : Nat), sta[m]? = some p → p < l.reverse.length := by
+        intro m p hmp
+        have := (ih' m p hmp).1
+        exact (List.getElem?_eq_some_iff.mp this).1
+      simp only [Option.bind_some, Nat.zero_add, List.length_reverse] at h
+      have key : ∀ (m p : Nat) (x : Kind) (e : Nat), sta[m]? = some p → depthScan [x] m = some e →
+          (l.reverse ++ [x])[p]? = some Kind.open ∧
+            depthScan ((l.reverse ++ [x]).drop (p + 1)) 0 = some e := by
+        intro m p x e hmp hx
+        have h1 := ih' m p hmp
+        have h2 := hlt m p hmp
+        rw [List.getElem?_append_left h2, List.drop_append_of_le_length (by omega),
+          depthScan_append, h1.2]
+        exact ⟨h1.1, hx⟩
+      cases k
+      case «open» =>
+        simp only [openStack, Option.some.injEq] at h
+        subst h
+        cases m with
+        | zero =>
+          simp only [List.getElem?_cons_zero, Option.some.injEq] at hp
+          subst hp
+          constructor
+          · rw [List.getElem?_append_right (by simp)]; simp
+          · rw [List.drop_of_length_le (by simp)]; rfl
+        | succ m =>
+          simp only [List.getElem?_cons_succ] at hp
+          exact key m p _ _ hp rfl
+      case close =>
+        cases sta with
+        | nil => simp [openStack] at h
+        | cons q st' =>
+          simp only [openStack, Option.some.injEq] at h
+          subst h
+          exact key (m + 1) p _ _ (by simpa using hp) rfl
+      all_goals
+        simp only [openStack, Option.some.injEq] at h
+        subst h
+        exact key m p _ _ hp rfl
+
+/-- A scan that never goes below the bottom `st1.length` entries only touches those. -/
+theorem openStack_of_depthScan (b : List Kind) : ∀ (i : Nat) (st1 : List Nat) (e : Nat),
+    depthScan b st1.length = some e →
+      ∃ st1', st1'.length = e ∧ ∀ st2, openStack b i (st1 ++ st2) = some (st1' ++ st2) := by
+  induction b with
+  | nil =>
+    intro i st1 e h
+    simp only [depthScan, Option.some.injEq] at h
+    exact ⟨st1, h, fun _ => rfl⟩
+  | cons k ks ih =>
+    intro i st1 e h
+    cases k <;> simp only [depthScan] at h <;> simp only [openStack]
+    case «open» => exact ih (i + 1) (i :: st1) e h
+    case close =>
+      cases st1 with
+      | nil => simp at h
+      | cons q st1t => exact ih (i + 1) st1t e (by simpa using h)
+    all_goals exact ih (i + 1) st1 e h
+
+/-- `innermostUnclosed src = some j` iff (no `]` is unmatched and) character `j` is a `[` and the text
+after it is balanced — i.e. `j` is the last `[` that is never closed. -/
+theorem innermostUnclosed_iff (src : List Kind) (j : Nat) (hF : firstUnmatchedClose src = none) :
+    innermostUnclosed src = some j ↔ src[j]? = some Kind.open ∧ Balanced (src.drop (j + 1)) := by
+  constructor
+  · intro h
+    unfold innermostUnclosed at h
+    split at h
+    · rename_i p rest heq
+      simp only [Option.some.injEq] at h
+      subst h
+      have := openStack_final src.reverse (p :: rest) (by rwa [List.reverse_reverse]) 0 p rfl
+      rwa [List.reverse_reverse] at this
+    · simp at h
+  · rintro ⟨hj, hb⟩
+    obtain ⟨hlt, hget⟩ := List.getElem?_eq_some_iff.mp hj
+    have hsplit : src = src.take j ++ Kind.open :: src.drop (j + 1) := by
+      rw [← hget, ← List.drop_eq_getElem_cons hlt, List.take_append_drop]
+    have hc := spec_consistent src 0 []
+    unfold firstUnmatchedClose at hF
+    unfold innermostUnclosed
+    cases hS : openStack src 0 [] with
+    | none => rw [hS] at hc; simp [hF] at hc
+    | some S =>
+      rw [hsplit, openStack_append] at hS
+      cases hA : openStack (src.take j) 0 [] with
+      | none => rw [hA] at hS; simp at hS
+      | some sta =>
+        rw [hA] at hS
+        simp only [Option.bind_some, Nat.zero_add, List.length_take, Nat.min_eq_left (Nat.le_of_lt hlt),
+          openStack] at hS
+        obtain ⟨st1', hl, hst⟩ := openStack_of_depthScan (src.drop (j + 1)) (j + 1) [] 0 hb
+        have hnil : st1' = [] := List.eq_nil_of_length_eq_zero hl
+        subst hnil
+        have := hst (j :: sta)
+        simp only [List.nil_append] at this
+        rw [this] at hS
+        simp only [Option.some.injEq] at hS
+        subst hS
+        rfl
+
 /-! ## The parser against the spec -/
 
 open Ir
